@@ -446,15 +446,17 @@ func (c *cluster) setupWatch(cli EtcdClient, key watchKey, rev int64) (context.C
 	}
 
 	ctx, cancel := context.WithCancel(cli.Ctx())
-	if watcher, ok := c.watchers[key]; ok {
+	c.lock.Lock()
+	watcher, ok := c.watchers[key]
+	if ok {
 		watcher.cancel = cancel
-	} else {
-		val := newWatchValue()
-		val.cancel = cancel
-
-		c.lock.Lock()
-		c.watchers[key] = val
-		c.lock.Unlock()
+	}
+	c.lock.Unlock()
+	if !ok {
+		// the last listener has left, there is nobody to watch for, don't bring the
+		// watcher back to life, a later subscriber would join it without its values
+		cancel()
+		return ctx, nil
 	}
 
 	rch = cli.Watch(clientv3.WithRequireLeader(ctx), wkey, ops...)
